@@ -209,15 +209,30 @@ class AsciiMap:
         """
         self._updateDimensionsFromData()
         self.asciiLines = []
+        drawn = set()
         for lineNum in self._getLineNumsToWrite():
             line = []
             for colNum in range(self._asciiMaxCol):
                 ij = self._getIJFromColRow(colNum, lineNum)
+                if ij in self.asciiLabelByIndices:
+                    drawn.add(ij)
                 # convert to string and strip any whitespace in thing we're representing
                 line.append(
                     str(self.asciiLabelByIndices.get(ij, PLACEHOLDER)).replace(" ", "")
                 )
             self.asciiLines.append(line)
+
+        notDrawn = [
+            ij
+            for ij, label in self.asciiLabelByIndices.items()
+            if ij not in drawn and label != PLACEHOLDER
+        ]
+        if notDrawn:
+            # never draw a map that silently leaves out some of the contents
+            raise ValueError(
+                f"Cannot write asciimap: {len(notDrawn)} location(s) do not fit in the "
+                f"map derived from the data, e.g. {sorted(notDrawn)[:3]}"
+            )
 
         # clean data
         noDataLinesYet = True  # handle all-placeholder rows
